@@ -1,3 +1,84 @@
-import GixModel.Model.C55
+import GixModel.Lemmas.C55b
+import GixModel.Lemmas.C55c
+/-
+C55 — Worktree streams contain exactly the tree.  PROPERTY THEOREMS ONLY.
+
+The pipe protocol of gix-worktree-stream (header, known-length bodies, `write_stream` chunks with
+u16 lengths and a zero terminator, `read_entry_info`, `Entry::read`) and the breadth-first traversal of
+`from_tree`, as repaired by /repo 0af55029c. The archive containers (tar-rs, zip) are external and
+checked against `git archive` by the harness only.
+-/
 namespace GixModel.Props.C55
+open GixModel GixModel.C55
+
+/-- `protocol_roundtrip`: for ALL entry lists — any path, kind, id, content of ANY length, known
+length or streamed with ANY producer chunking (`Body.chunks reads`, each read 1..65535 bytes as
+`input.read(&mut buf[..65535])` can return) — and for ALL consumer buffer sizes (each ≥ 1, changing from
+read to read), reading every entry to the end yields exactly the entries that were written, in
+order, with their content, and then the end of the stream. -/
+theorem protocol_roundtrip (es : List Entry) (hv : ∀ e ∈ es, e.Valid) (sz : Nat → Nat) (hsz : ∀ i, 1 ≤ sz i) :
+    decodeAll sz (encodeAll es) = .ok (es.map seenOf) := by
+  unfold decodeAll
+  exact decodeLoop_encodeAll sz hsz es _ 0 hv (by have := encodeAll_length es; omega)
+
+-- non-vacuity: a streamed entry in two chunks, an empty known-length entry, a link
+example : ∀ e ∈ ([⟨[97], 1, List.replicate 20 0, .chunks [[1, 2], [3]]⟩, ⟨[98], 2, List.replicate 20 7, .known []⟩,
+    ⟨[99], 3, List.replicate 20 0, .known [120]⟩] : List Entry), e.Valid := by
+  intro e he
+  simp only [List.mem_cons, List.mem_nil_iff, or_false] at he
+  rcases he with rfl | rfl | rfl <;> simp [Entry.Valid, Body.Valid, bufLen, usizeMax]
+
+/-- `chunking_independent`: what the consumer reads does not depend on how the producer's reads
+were cut. -/
+theorem chunking_independent (path id : Bytes) (kind : Nat) (rs1 rs2 : List Bytes) (h : rs1.flatten = rs2.flatten)
+    (h1 : (⟨path, kind, id, .chunks rs1⟩ : Entry).Valid) (h2 : (⟨path, kind, id, .chunks rs2⟩ : Entry).Valid)
+    (sz1 sz2 : Nat → Nat) (hs1 : ∀ i, 1 ≤ sz1 i) (hs2 : ∀ i, 1 ≤ sz2 i) :
+    decodeAll sz1 (encodeAll [⟨path, kind, id, .chunks rs1⟩]) = decodeAll sz2 (encodeAll [⟨path, kind, id, .chunks rs2⟩]) := by
+  rw [protocol_roundtrip _ (by intro e he; simp at he; subst he; exact h1) sz1 hs1,
+    protocol_roundtrip _ (by intro e he; simp at he; subst he; exact h2) sz2 hs2]
+  simp [seenOf, Body.content, Body.declared, h]
+
+/-- `no_premature_terminator`: the two length bytes of a chunk are never the terminator, because
+`BUF_LEN = u16::MAX` keeps every read below 65536. -/
+theorem no_premature_terminator (c : Bytes) (h0 : 0 < c.length) (hb : c.length ≤ bufLen) :
+    le 2 c.length ≠ le 2 0 := by
+  intro h
+  have h1 := congrArg ofLe h
+  unfold bufLen at hb
+  rw [ofLe_le2 _ (by omega), ofLe_le2 0 (by omega)] at h1
+  omega
+
+/-- the bound is tight: a read of 65536 bytes would be written as the terminator -/
+theorem terminator_bound_tight : le 2 65536 = le 2 0 := by decide
+
+/-- A read into an empty buffer returns 0 bytes and changes nothing (so it does not end the entry;
+before 0af55029c it did). -/
+theorem zero_read_noop (st : RState) (remaining : Option Nat) : entryRead st remaining 0 = .ok [] st remaining := by
+  simp [entryRead]
+
+/-- `entries_eq_leaves`: the stream of a tree plus additional entries, read by any consumer, is
+`from_tree`'s entries followed by the additional ones, and `from_tree`'s entries are a permutation
+of the tree's leaves (depth-first listing without submodules and export-ignored paths, contents
+passed through the filter): every leaf exactly once, nothing else. `ign` and `conv` are arbitrary. -/
+theorem entries_eq_leaves (ign : Bytes → Nat → Bool) (conv : Bytes → Bytes → Bytes) (root : Forest) (extra : List Entry)
+    (hv : ∀ e ∈ leavesForest ign conv [] root, e.Valid) (hx : ∀ e ∈ extra, e.Valid)
+    (sz : Nat → Nat) (hsz : ∀ i, 1 ≤ sz i) :
+    decodeAll sz (encodeAll (fromTree ign conv root ++ extra)) =
+        .ok ((fromTree ign conv root).map seenOf ++ extra.map seenOf) ∧
+      (fromTree ign conv root).Perm (leavesForest ign conv [] root) := by
+  have hp := fromTree_perm ign conv root
+  refine ⟨?_, hp⟩
+  rw [protocol_roundtrip _ _ sz hsz, List.map_append]
+  intro e he
+  rcases List.mem_append.mp he with h | h
+  · exact hv e (hp.mem_iff.mp h)
+  · exact hx e h
+
+-- non-vacuity: a/{b (blob), c/d (exec)}, z (link), sub (submodule): breadth-first order z, a/b, a/c/d
+example : (fromTree (fun _ _ => false) (fun _ c => c)
+    (.cons [97] (.tree (.cons [98] (.blob 1 [] [1]) (.cons [99] (.tree (.cons [100] (.blob 2 [] [2]) .nil)) .nil)))
+      (.cons [115] (.commit []) (.cons [122] (.blob 3 [] [3]) .nil)))).map (·.path) =
+    [[122], [97, 47, 98], [97, 47, 99, 47, 100]] := by
+  decide
+
 end GixModel.Props.C55
